@@ -448,7 +448,7 @@ class Scenario(object):
         if k == 'create':
             return b.create_portfolio(op[1], name='n')
         if k == 'order':
-            o = Order(b.current_dt, op[2], op[3], order_id=op[4])
+            o = Order(b.current_dt, op[2], op[3], order_id=op[4], commission=(op[5] if len(op) > 5 else 0.0))
             return b.submit_order(op[1], o)
         if k in GETTER_FAULTS:
             return getattr(b, GETTER_FAULTS[k][0])(op[1])
@@ -1203,6 +1203,29 @@ class Scenario(object):
                 if len(sells) > 1 or len(buys) > 1:
                     acc.count('C04:same_side_multi_batches')
             acc.count('C04:batch_order_checks')
+        # the holdings of every portfolio moved by exactly what was filled in it
+        for pid in m.ports:
+            if pid not in before['ports']:
+                continue
+            hb, ha = before['ports'][pid]['hold'], after['ports'][pid]['hold']
+            for a in set(hb) | set(ha) | {d['asset'] for d in delivered if d['pid'] == pid}:
+                moved = F(ha.get(a, {'quantity': 0})['quantity']) - F(hb.get(a, {'quantity': 0})['quantity'])
+                filled = sum(F(d['qty']) for d in delivered if d['pid'] == pid and d['asset'] == a)
+                if moved != filled:
+                    self.viol('C04', 'holding-moved-by-other-than-fill', 'holding of %s in %s moved by %s while orders for %s were filled '
+                              'in this update' % (a, pid, float(moved), float(filled)))
+        acc.count('C04:holding_delta_checks')
+        # account-wide: every sell of the update is executed before any buy (sequence of delivered transactions)
+        if k == 'update':
+            seq = [d['qty'] for d in delivered]
+            if any(q > 0 for q in seq) and any(q < 0 for q in seq):
+                first_buy = min(i for i, q in enumerate(seq) if q > 0)
+                last_sell = max(i for i, q in enumerate(seq) if q < 0)
+                if last_sell > first_buy:
+                    self.viol('C04', 'order-of-fills/sells-first-across-portfolios',
+                              'within one update a buy (%s of %s) was executed before a sell (%s of %s)'
+                              % (delivered[first_buy]['qty'], delivered[first_buy]['pid'], delivered[last_sell]['qty'], delivered[last_sell]['pid']))
+                acc.count('C04:account_wide_order_checks')
         # second source: the delivered transactions, same rule per portfolio
         if k == 'update':
             for pid in m.ports:
@@ -1551,7 +1574,10 @@ class Gen(object):
             return ['p_wd', pid, float(cash) * rng.choice([0.0, 0.1, 0.5, 1.0, rng.random()])]
         if r < 0.55:
             a = rng.choice(assets)
-            return ['order', pid, a, self.qty(pid, a), self.oid(pid)]
+            o_ = ['order', pid, a, self.qty(pid, a), self.oid(pid)]
+            if rng.random() < 0.1:
+                o_.append(rng.choice([4.95, 1.0, 25.0]))      # Order(commission=...): optional argument of the public class
+            return o_
         if r < 0.83:
             self.tmax = next_time(rng, self.tmax)
             return ['update', str(self.tmax)]
@@ -1824,7 +1850,7 @@ def generate_and_run(rng, acc, prop, faults, nops, active=None):
     return sc
 
 
-def symmetry_pair(rng, acc):
+def symmetry_pair(rng, acc, replay_of=None):
     """
     C05: a buy of X and a sell of Y of the same size at the same price must pay the same commission.
     Half of the pairs have a consideration that is an exact tie (n + 0.5).
@@ -1835,10 +1861,12 @@ def symmetry_pair(rng, acc):
     from qstrader.broker.fee_model.percent_fee_model import PercentFeeModel
     from qstrader.execution.order import Order
     tie = rng.random() < 0.5
-    if tie:
+    if replay_of is not None:
+        tie, price, qty = replay_of            # the same trade again, under another fee schedule
+    elif tie:
         price = float(rng.randint(1, 3000)) + 0.5
         qty = 2 * rng.randint(0, 400) + 1
-    else:
+    elif replay_of is None:
         price = rand_price(rng)
         qty = max(1, int(10 ** rng.uniform(0, 4.5)))
     spread = rng.choice([0.01, 0.25, 1.0])
@@ -1865,8 +1893,14 @@ def symmetry_pair(rng, acc):
     acc.count('C05:symmetry_pairs')
     if tie:
         acc.count('C05:symmetry_pairs_on_exact_tie')
+    symmetry_pair.last = (tie, price, qty)
     if by['buy']['price'] != price or by['sell']['price'] != price:
         raise Violation('C05', 'symmetry/price', 'buy at %r sell at %r, both quotes are %r' % (by['buy']['price'], by['sell']['price'], price), case)
+    exact = F(price) * qty
+    wants = [(F(c) + F(x)) * abs(n) for n in core.round_candidates(exact)]
+    if not any(close(cb, w_, abs(w_), rel=1e-12) for w_ in wants):
+        raise Violation('C05', 'commission/pair', 'buy of %d @ %r under rates %r + %r is charged %r; the fee model gives %s'
+                        % (qty, price, c, x, cb, [float(w_) for w_ in wants]), case)
     if abs(cb - cs) > 1e-12 * max(abs(cb), abs(cs), 1e-300) or cb < 0 or cs < 0:
         raise Violation('C05', 'commission-asymmetric' + ('/tie' if tie else ''),
                         'buy of %d @ %r is charged %r but the sell of the same size at the same price is charged %r '
@@ -1887,6 +1921,9 @@ def shard_broker(spec, acc, prop, faults):
         for i in range(spec['cases'] * 6):
             try:
                 symmetry_pair(rng, acc)
+                if i % 3 == 0:
+                    symmetry_pair(rng, acc, replay_of=symmetry_pair.last)     # same trade, other rates, same process
+                    acc.count('C05:same_trade_under_another_fee_schedule')
             except Violation as v:
                 acc.violation(v, v.witness)
     acc.count('contract_evaluations', CONTRACT_EVALS['n'])
